@@ -9,6 +9,8 @@ import Nlmodel.Proofs.Lemmas.ResolveCtl
 import Nlmodel.Proofs.Lemmas.SpecMono
 import Nlmodel.Proofs.Lemmas.SimFnValidate
 import Nlmodel.Proofs.Lemmas.SimHValidate
+import Nlmodel.Proofs.Lemmas.ResolveHeap
+import Nlmodel.Proofs.Lemmas.ResolveFn
 namespace Nl
 namespace C01
 
@@ -247,6 +249,71 @@ theorem C01_heap_eval_text (cc : CharClass) (src : Text) (ast : Block) (r : RBlo
     | .fault _ => False
     | _ => True :=
   SimH.heap_eval_text cc src ast r bc hp hc hin F
+
+/-- PROGRAMS WITH FUNCTIONS, NO VALIDATION (R1 of the resolver for stage 4, `SimF.resolve_ytop`): for EVERY source
+    tree in the syntactic fragment `SimF.SrcTop` (decidable: `SimF.srcTop`) — top-level statements and function
+    definitions `functie f(ps) { .. }` / `stel f = functie(ps) { .. }`; in bodies and statements integer and boolean
+    literals, identifiers, prefix and the 13 binary operators, assignment to names, `als`/`anders`, `zolang`,
+    blocks, `stel`, `stop`/`volgende` where no operand is pending, calls of any callee expression that is not a
+    builtin name with any number of arguments, `antwoord` inside bodies — whatever the resolver (contexts,
+    scopes, slot numbering with reuse, `max_size` as the locals count) and the code generator produce, running
+    it on a fresh machine agrees with the definitional semantics of the resolved tree, or stops at the
+    machine's stack/frame limit.  The per-program validation of `C01_function_source_program` is discharged
+    by induction over the resolver; function ids are distinct because they are issued in increasing order. -/
+theorem C01_function_program_no_validation (ast : Block) (r : RBlock) (bc : Bytecode) (hc : compileProgram ast = .ok (r, bc))
+    (hin : SimF.SrcTop ast) (F : Nat) :
+    (∃ n, ∀ k, ∃ s', runSteps bc.code (n + k) (VM.start {} bc) = .error .index s') ∨
+    match Spec.evalB F r {} with
+    | .val () st' => ∃ Γ' D mv n, SimF.VR (SimF.lookupD D) Γ' st'.last mv ∧ st'.out = [] ∧
+        ∀ k, ∃ s', runSteps bc.code (n + k) (VM.start {} bc) = .value mv s'
+    | .err er _ => ∃ n, ∀ k, ∃ s', runSteps bc.code (n + k) (VM.start {} bc) = .error er s'
+    | .brk _ => False
+    | .cont _ => False
+    | .ret _ _ => False
+    | _ => True :=
+  SimF.fn_source_program_syntactic ast r bc hc hin F
+
+/-- non-vacuity: the recursive factorial program is in the syntactic fragment -/
+example : SimF.srcTop SimF.facSrc = true := by decide
+
+/-- THE WHOLE FUNCTION-FREE LANGUAGE, NO VALIDATION (R1 of the resolver for stage 5, `SimH.resolve_hb`): for EVERY
+    source tree without function literals, user-function calls and `antwoord` — integer, boolean, string and
+    float literals, identifiers, prefix and the 13 binary operators, assignment to names and to indexed
+    elements, list literals, indexing, all seven builtins, `als`/`anders`, `zolang`, blocks with their scopes,
+    `stel`, `stop`/`volgende` where no operand is pending (`SimH.SHB false ast`, a SYNTACTIC condition on the
+    source tree, decidable: `SimH.inSourceH`) — whatever the resolver and the code generator produce, the run
+    on a fresh machine halts with the definitional value (deep view), after the definitional output, or fails
+    with the definitional error after the definitional output.  The per-program validation of
+    `C01_heap_source_program` is discharged once and for all by induction over the resolver. -/
+theorem C01_function_free_source_program (ast : Block) (hs : SimH.SHB false ast) (r : RBlock) (bc : Bytecode)
+    (hc : compileProgram ast = .ok (r, bc)) (F : Nat) :
+    match Spec.evalB F r {} with
+    | .val () st' => ∃ mv n s', (∀ k, runSteps bc.code (n + k) (VM.start {} bc) = .value mv s') ∧
+        s'.mem.heap.tree treeDepth [] mv = st'.tree treeDepth [] st'.last ∧ s'.out = st'.out ∧
+        (finishValue mv s').mem.heap.tree treeDepth [] mv = s'.mem.heap.tree treeDepth [] mv
+    | .err er ste => ∃ n s', (∀ k, runSteps bc.code (n + k) (VM.start {} bc) = .error er s') ∧ s'.out = ste.out
+    | .brk _ => False
+    | .cont _ => False
+    | .ret _ _ => False
+    | _ => True :=
+  SimH.heap_source_program_r1 ast hs r bc hc F
+
+/-- the same at the level of the OBSERVATION (`evalText` against `specText`, what the correspondence compares):
+    for every text that parses to a function-free tree, whatever the definitional semantics answers with some
+    fuel is what `eval` answers for every large enough budget.  No hypothesis about the resolver's or the
+    compiler's output remains. -/
+theorem C01_function_free_eval_text (cc : CharClass) (src : Text) (ast : Block) (r : RBlock) (bc : Bytecode)
+    (hp : parse cc src = .ok ast) (hs : SimH.SHB false ast) (hc : compileProgram ast = .ok (r, bc)) (F : Nat) :
+    match specText cc F src with
+    | .value t out => ∃ n, ∀ k, evalText cc (n + k) src = .value t out
+    | .error e out => ∃ n, ∀ k, evalText cc (n + k) src = .error e out
+    | .fault _ => False
+    | _ => True :=
+  SimH.heap_eval_text_r1 cc src ast r bc hp hs hc F
+
+/-- non-vacuity: a source tree with an array of a float and a string, aliasing, `b[0] = a`, `print`/`lengte`,
+    a `zolang` loop with `stop` and `volgende`, prefix operators and `a[1][0] + "y"` is in the fragment -/
+example : SimH.inSourceH SimH.heapSrcEx = true := by decide
 
 /-! ### consequence for C10: how the compiler implements an expression is unobservable -/
 
